@@ -1,5 +1,6 @@
 import Pyunicorn.Lemmas.Window
 import Pyunicorn.Lemmas.WindowShuffle
+import Pyunicorn.Lemmas.WindowFloat
 import Pyunicorn.Generated.ArithC13
 /-!
 # C13 — Data windows select exactly the requested samples; anomalies sum
@@ -1748,5 +1749,63 @@ example : bitMask 5 = 7 ∧ bitMask 8 = 15 ∧ bitMask 1 = 1 ∧ bitMask 0xfffff
 /-- two columns on one stream; the content of `np.empty` (here 7s and 8s) is overwritten -/
 example : shuffledAnomalyRaw [[1, 10], [2, 20], [3, 30]] 2 [[7, 7], [8, 8], [7, 8]] [5, 1, 0, 0, 42]
     = some ([[1, 20], [3, 30], [2, 10]], [42]) := by decide +kernel
+
+/-! ## 13. Round 4: float rounding of `phase_mean()` / `anomaly()` under the standard model
+
+`F : FlArith u ud` is any arithmetic with relative error `≤ u` per `+` / `-` and `≤ ud` per
+division (binary64: `u = ud = 2⁻⁵³`); `t : SumTree` is the order in which NumPy adds the samples
+of one phase and node — the statements hold for every order.  The harness evaluates these bounds
+in exact arithmetic on the values the real code returns (instead of a chosen tolerance). -/
+
+/-- **the computed phase mean** of node `j` and phase `i` differs from the exact one (the entry of
+the rational model `colMean`) by at most `((1+u)^(k−1) (1+ud) − 1) · mean|x|`, `k` = number of
+samples of the phase, for every order of summation of the column `observable[i::c, j]` -/
+theorem float_phase_mean_error {u ud : ℚ} (F : FlArith u ud) (hu : 0 ≤ u) (hud : 0 ≤ ud)
+    (c n i j : Nat) (obs : Mat) (h : ∀ r ∈ obs, r.length = n) (hj : j < n) (m : Vec)
+    (hm : colMean n (everyNth c i obs) = some m)
+    (t : SumTree) (ht : t.leaves = column (everyNth c i obs) j) :
+    |flMean F t - m.getD j 0|
+      ≤ ((1 + u) ^ (t.leaves.length - 1) * (1 + ud) - 1)
+          * ((t.leaves.map (|·|)).sum / t.leaves.length) := by
+  have hrows : ∀ r ∈ everyNth c i obs, r.length = n := fun r hr => h r (mem_everyNth _ _ _ _ hr)
+  rw [colMean_getD n _ j m hrows hj hm, ← ht]
+  exact mean_error_n F hu hud t
+
+/-- **add-back under rounding**: the computed anomaly `fl(x − m̂)` plus the number `m̂` that was
+subtracted (the computed phase mean, whatever its error) is the observable up to one rounding
+error of their difference -/
+theorem float_addback_error {u ud : ℚ} (F : FlArith u ud) (x m : ℚ) :
+    |F.sub x m + m - x| ≤ u * |x - m| := addback_error F x m
+
+/-- **zero phase mean under rounding**: the mean of the computed anomalies of one phase and node
+(`xs` = the samples, `t` any order of summing them, `m̂ = flMean F t` the computed mean) is at most
+the error bound of the mean plus `u` times the mean absolute deviation -/
+theorem float_anomaly_phase_mean_error {u ud : ℚ} (F : FlArith u ud) (hu : 0 ≤ u) (hud : 0 ≤ ud)
+    (t : SumTree) :
+    |(t.leaves.map (F.sub · (flMean F t))).sum / t.leaves.length|
+      ≤ ((1 + u) ^ (t.leaves.length - 1) * (1 + ud) - 1)
+            * ((t.leaves.map (|·|)).sum / t.leaves.length)
+        + u * ((t.leaves.map fun x => |x - flMean F t|).sum / t.leaves.length) := by
+  have hne : t.leaves ≠ [] := by
+    have := t.depth_lt_leaves
+    intro h0
+    rw [h0] at this
+    simp at this
+  have h1 := anomaly_mean_error F (flMean F t) t.leaves hne
+  have h2 := mean_error_n F hu hud t
+  rw [abs_sub_comm] at h2
+  linarith
+
+/-- with exact arithmetic (`u = ud = 0`) the three bounds are the exact statements again -/
+theorem float_bounds_exact_case (t : SumTree) :
+    flMean (FlArith.exactArith 0 0 (le_refl _) (le_refl _)) t = t.leaves.sum / t.leaves.length := by
+  have := mean_error_n (FlArith.exactArith 0 0 (le_refl _) (le_refl _)) (le_refl _) (le_refl _) t
+  simp only [add_zero, one_pow, mul_one, sub_self, zero_mul] at this
+  exact sub_eq_zero.1 (abs_nonpos_iff.1 this)
+
+/-- non-vacuity: the sequential order of a reduction over axis 0 is a summation tree with the
+samples as leaves and depth `k − 1` -/
+example : (SumTree.seq 3 [1, 4, 1, 5]).leaves = [3, 1, 4, 1, 5] ∧ (SumTree.seq 3 [1, 4, 1, 5]).depth = 4 :=
+  SumTree.seq_spec 3 [1, 4, 1, 5]
 
 end Pyunicorn.Window
